@@ -411,6 +411,28 @@ def _(p):
     return None if len(out) == p["df"] else f"wrong-column-count: bs(df={p['df']}) gave {len(out)} columns"
 
 
+@replay("c13_formula_state")
+def _(p):
+    import pandas
+    from formulaic import model_matrix
+
+    a, y = p["a"], p["y"]
+    if len(set(a)) < 3:
+        return None
+    mm = model_matrix(f"0 + {p['call']}", pandas.DataFrame({"a": a}), output="numpy")
+    spec = mm.model_spec
+    if not spec.transform_state:
+        return f"no-state-recorded: model_matrix('0 + {p['call']}') recorded no transform state"
+    mixed = numpy.asarray(spec.get_model_matrix(pandas.DataFrame({"a": [a[1], y[0]]})), dtype=float)
+    alone = numpy.asarray(spec.get_model_matrix(pandas.DataFrame({"a": [y[0]]})), dtype=float)
+    ref = numpy.asarray(mm, dtype=float)
+    if not numpy.allclose(mixed[0], ref[1], rtol=1e-9, atol=1e-9, equal_nan=True):
+        return f"training-row-differs: {p['call']}: training row replays to {mixed[0].tolist()}, recorded {ref[1].tolist()}"
+    if not numpy.allclose(mixed[1], alone[0], rtol=1e-9, atol=1e-9, equal_nan=True):
+        return f"row-depends-on-companions: {p['call']}: fresh row gives {mixed[1].tolist()} next to a training row, {alone[0].tolist()} alone"
+    return None
+
+
 @replay("c12_crs_df")
 def _(p):
     from formulaic.transforms import TRANSFORMS
